@@ -12,7 +12,8 @@ import sys
 def install_entropy(seed):
     """Per-process entropy sources a program might (wrongly) fold into an assignment are drawn from the
     simulator's value for this node incarnation, so that a run is a pure function of the scenario:
-    os.urandom (hence uuid4, secrets), the global random state, time.time / time_ns, os.getpid / getppid."""
+    os.urandom (hence uuid4, secrets), the global random state, time.time / time_ns / monotonic, os.getpid / getppid.
+    Returns the function that moves this node's clocks (the simulator's `idle` operation)."""
     import hashlib
     import random
     import time
@@ -31,9 +32,11 @@ def install_entropy(seed):
     random.seed(seed)
     t_base = 1_700_000_000.0 + (seed % 10_000_000) * 7.0
 
+    skew = {"wall": 0.0}
+
     def fake_time():
         state["n"] += 1
-        return t_base + state["n"] * 0.001
+        return t_base + skew["wall"] + state["n"] * 0.001
 
     time.time = fake_time
     time.time_ns = lambda: int(fake_time() * 1e9)
@@ -52,6 +55,13 @@ def install_entropy(seed):
     os.getpid = lambda: fake_pid
     os.getppid = lambda: 1
 
+    def advance(dt, wall_step=0.0):
+        # an idle period on both clocks, plus a step of the wall clock alone (may go backwards; the monotonic clock never does)
+        mono["t"] += max(0.0, dt)
+        skew["wall"] += max(0.0, dt) + wall_step
+
+    return advance
+
 
 def main():
     rfd, wfd = (int(x) for x in os.environ["VERIF_NODE_FDS"].split(","))
@@ -63,7 +73,7 @@ def main():
     devnull = open(os.devnull, "w")
     sys.stdout = sys.stderr = devnull
     info = {"hashseed": os.environ.get("PYTHONHASHSEED")}
-    install_entropy(int(os.environ.get("VERIF_NODE_ENTROPY", "1")))
+    advance_clock = install_entropy(int(os.environ.get("VERIF_NODE_ENTROPY", "1")))
     # an embedding application would adopt the user's locale
     import locale
 
@@ -135,6 +145,9 @@ def main():
             import gc
 
             gc.collect()
+            res = ["ok"]
+        elif op == "idle":
+            advance_clock(float(req["dt"]), float(req.get("wall_step", 0.0)))
             res = ["ok"]
         elif op == "quit":
             out.write(json.dumps({"res": ["ok"]}) + "\n")
